@@ -36,7 +36,15 @@ pub fn make_text(len: usize, flavour: u8, seed: u64) -> String {
         &['\u{30de}', '\u{20ac}', '\u{ffff}', '\u{800}', 'q'],
         &['\u{1f600}', '\u{10000}', '\u{10ffff}', '\u{e9}', '\u{20ac}', 'k'],
     ];
-    let pool = pools[(flavour % 4) as usize];
+    // code points that string preparation (RFC 3454 / 4013 / 8265), Unicode normalisation or case
+    // folding would map, drop or prohibit: one text in six is drawn from them (mixed with letters).
+    // A decoder or constructor has to hand back exactly the text it was given.
+    const SPECIAL: [&[char]; 3] = [
+        &['u', '\u{ad}', '\u{a0}', '\u{200b}', '\u{200c}', '\u{200d}', '\u{2060}', '\u{feff}', '\u{fe0f}', '\u{34f}', '\u{1680}', '\u{2003}', '\u{3000}', '\u{180e}', 's', 'e', 'r'],
+        &['A', '\u{301}', '\u{212b}', '\u{fb01}', '\u{b2}', '\u{1c6}', '\u{2126}', '\u{1e9b}', '\u{ff21}', '\u{df}', '\u{130}', '\u{131}', '\u{17f}', '\u{1e9e}', '\u{390}', 'n', 'k'],
+        &['p', '\u{202e}', '\u{200f}', '\u{7f}', '\u{0}', '\u{e000}', '\u{fffd}', '\u{d7ff}', '\u{fdd0}', '\u{e0001}', '\u{1d173}', '\u{fff9}', '\u{2028}', '\u{85}', 'w', 'd'],
+    ];
+    let pool = if (seed >> 32) % 6 == 0 { SPECIAL[((seed >> 40) % 3) as usize] } else { pools[(flavour % 4) as usize] };
     while s.len() < len {
         let c = pool[(next() % pool.len() as u64) as usize];
         if s.len() + c.len_utf8() <= len {
